@@ -283,7 +283,7 @@ fn main() {
         }
     }
 
-    // ---- F2: all ordered pairs over a 20-kind alphabet (untagged before tagged)
+    // ---- F2: all ordered pairs over a 24-kind alphabet (untagged before tagged)
     let kinds20: Vec<FK> = vec![
         fk(Pos::Positional, LenK::Empty, Ty::U8, EncK::Default, Wrap::Bare),
         fk(Pos::Positional, LenK::Fixed, Ty::Usize, EncK::Bcd, Wrap::Bare),
@@ -305,6 +305,11 @@ fn main() {
         fk(Pos::Tlv(0x50), LenK::Tlv, Ty::Usize, EncK::Bcd, Wrap::Bare),
         fk(Pos::Tlv(0x1f50), LenK::Tlv, Ty::Nested("I2"), EncK::Default, Wrap::Opt),
         fk(Pos::Tlv(0x1f50), LenK::Tlv, Ty::Nested("I5"), EncK::Default, Wrap::Vec),
+        // absent positional optionals whose inner decoder fails in other ways than "incomplete"
+        fk(Pos::Positional, LenK::Tlv, Ty::Str, EncK::Default, Wrap::Opt),
+        fk(Pos::Positional, LenK::Empty, Ty::Nested("I5"), EncK::Default, Wrap::Opt),
+        fk(Pos::Bmp(0x8a), LenK::Empty, Ty::U8, EncK::Default, Wrap::Opt),
+        fk(Pos::Tlv(0xe4), LenK::Tlv, Ty::Nested("I4"), EncK::Default, Wrap::Bare),
     ];
     let mut idx = 0;
     for a in &kinds20 {
